@@ -22,7 +22,7 @@ theorem primsOK_holdNodup (P : Params) (h : Nat) : PrimsOK P h (invRel HoldNodup
   setConvertedAmount _ _ _ := guarded_keep (·.holding) (fun _ _ e => holdNodup_keep e) (fun _ => rfl)
   setPegConverted _ _ _ _ := guarded_keep (·.holding) (fun _ _ e => holdNodup_keep e) (fun _ => rfl)
   insertRelation _ _ _ _ _ := guarded_keep (·.holding) (fun _ _ e => holdNodup_keep e) (fun s => by split <;> rfl)
-  insertHolding e keymr := by
+  insertHolding e keymr _ := by
     constructor
     intro s
     simp only [insertHolding, M.guarded]
